@@ -348,7 +348,7 @@ def c07_assume_compose(tier, seed):
         blob = pickle.dumps(m0)
         leaves = leaves_of(m0)
         text = m0.to_text()
-        comps = [x for x in m0.flatten() if not is_var(x) and x.id != m0.id]
+        comps = [x for x in m0.flatten() if not is_var(x)]          # sub-propositions and the model's own id
         for _ in range(6 if tier == "quick" else 16):
             a, forms = {}, []
             for v in rng.sample(leaves, rng.randint(0, len(leaves))):
